@@ -156,6 +156,7 @@ class Tacd:
             return bool(ok) and self.p.poll() is None
         host, port = self.listen.rsplit(':', 1)
         want = '%04X' % int(port)
+        table = '/proc/net/tcp6' if host.startswith('[') else '/proc/net/tcp'
 
         def up():
             # passive readiness test: a connect+close probe would itself be a hostile connection.
@@ -164,7 +165,7 @@ class Tacd:
                 return True
             try:
                 inodes = set()
-                for line in open('/proc/net/tcp').read().splitlines()[1:]:
+                for line in open(table).read().splitlines()[1:]:
                     f = line.split()
                     if f[1].endswith(':' + want) and f[3] == '0A':
                         inodes.add(f[9])
